@@ -68,8 +68,10 @@ def canon_scalar(s):
     return (str(re), str(im))
 
 
-def enc_block(arr):
+def enc_block(arr, data=True):
     arr = np.asarray(arr)
+    if not data:
+        return {"shape": [int(d) for d in arr.shape], "data": [0] * int(arr.size)}
     return {
         "shape": [int(d) for d in arr.shape],
         "data": [enc_scalar(v) for v in arr.reshape(-1).tolist()]
@@ -123,8 +125,9 @@ def enc_oddpos(oddpos):
     return [[int(o.label), bool(o.dual)] for o in oddpos]
 
 
-def enc_array(x):
-    """Raw serialisation: stored blocks, pending-sign table, labels, tables; dict order."""
+def enc_array(x, data=True):
+    """Raw serialisation: stored blocks, pending-sign table, labels, tables; dict order.
+    `data=False` replaces the numbers by zeros (structure-only, for float-valued factors)."""
     fermi = bool(getattr(x, "fermionic", False))
     out = {
         "sym": sym_name(x.symmetry),
@@ -132,7 +135,7 @@ def enc_array(x):
         "indices": [enc_index(ix) for ix in x.indices],
         "charge": enc_charge(x.charge),
         "blocks": [
-            dict(sector=enc_sector(s), **enc_block(b)) for s, b in x.blocks.items()
+            dict(sector=enc_sector(s), **enc_block(b, data)) for s, b in x.blocks.items()
         ],
         "phases": [[enc_sector(s), int(p)] for s, p in x.phases.items()]
         if fermi
@@ -146,10 +149,10 @@ def block_dtypes(x):
     return sorted({str(np.asarray(b).dtype) for b in x.blocks.values()})
 
 
-def enc_vec(v):
+def enc_vec(v, data=True):
     return {
         "vblocks": [
-            dict(charge=enc_charge(c), **enc_block(b)) for c, b in v.blocks.items()
+            dict(charge=enc_charge(c), **enc_block(b, data)) for c, b in v.blocks.items()
         ]
     }
 
@@ -222,7 +225,19 @@ def canon_index(j):
     )
 
 
-def canon_array(j, drop_zero=True, tables=True, labels=True):
+def canon_structure(j):
+    """structure view: tables, charge, sectors with shapes, sign table, labels; no data"""
+    return (
+        j["sym"], j["fermi"], tuple(canon_index(i) for i in j["indices"]), tuple(j["charge"]),
+        tuple(sorted((tuple(map(tuple, b["sector"])), tuple(b["shape"])) for b in j["blocks"])),
+        tuple(sorted((tuple(map(tuple, s)), p) for s, p in j.get("phases", []))),
+        tuple((l, d) for l, d in j.get("oddpos", [])),
+    )
+
+
+def canon_array(j, drop_zero=True, tables=True, labels=True, structure=False):
+    if structure:
+        return canon_structure(j)
     """Value view of an array in protocol form: pending signs multiplied in, blocks sorted
     by sector, all-zero blocks dropped (missing ≡ zero).  Hashable."""
     ph = {tuple(map(tuple, s)): p for s, p in j.get("phases", [])}
@@ -248,7 +263,9 @@ def canon_array(j, drop_zero=True, tables=True, labels=True):
     )
 
 
-def canon_vec(j):
+def canon_vec(j, structure=False):
+    if structure:
+        return tuple(sorted((tuple(b["charge"]), tuple(b["shape"])) for b in j["vblocks"]))
     return tuple(
         sorted(
             (tuple(b["charge"]), tuple(b["shape"]), tuple(canon_scalar(s) for s in b["data"]))
@@ -265,7 +282,7 @@ def canon_val(v, **kw):
     if "arr" in v:
         return ("arr", canon_array(v["arr"], **kw))
     if "vec" in v:
-        return ("vec", canon_vec(v["vec"]))
+        return ("vec", canon_vec(v["vec"], structure=kw.get("structure", False)))
     if "scalar" in v:
         return ("scalar", canon_scalar(v["scalar"]))
     if "blk" in v:
@@ -275,17 +292,17 @@ def canon_val(v, **kw):
     raise ValueError(f"unknown value kind: {list(v)}")
 
 
-def enc_val(x):
+def enc_val(x, data=True):
     """Encode a python-side result (array / vector / scalar / ndarray) as a protocol value."""
     import symmray as sr
 
     if isinstance(x, sr.AbelianArray):
-        return {"arr": enc_array(x)}
+        return {"arr": enc_array(x, data)}
     if isinstance(x, sr.BlockVector):
-        return {"vec": enc_vec(x)}
+        return {"vec": enc_vec(x, data)}
     if isinstance(x, np.ndarray) and x.ndim > 0:
-        return {"blk": enc_block(x)}
-    return {"scalar": enc_scalar(x)}
+        return {"blk": enc_block(x, data)}
+    return {"scalar": enc_scalar(x) if data else 0}
 
 
 EXC_KIND = [
